@@ -288,6 +288,10 @@ func compileComments(comments []*commentBlock, node nodeContainer) []*commentBlo
 		nodes[0].getNode().Comments = append(
 			node.(AstNodable).getNode().Comments,
 			nodes[0].getNode().Comments...)
+		// The first sub-node now owns these comments.  Leaving them on the
+		// container as well would make the formatter print them twice.
+		node.(AstNodable).getNode().scopeComments = nil
+		node.(AstNodable).getNode().Comments = nil
 	}
 	return comments
 }
